@@ -73,6 +73,7 @@ class Analyzer:
         self.cast_log = None            # when a list: (rvalue, source interval, from type, to type) of every int->int cast
         self.watch = None               # optional predicate on callee paths: argument values are recorded in Result.call_states
         self.closure_seeds = {}         # closure body id -> {arg local: (lo, hi)}
+        self.mag = False                # C03: emit MAG obligations at loop-count / allocation-size / dimension sinks
 
     # ------------------------------------------------------------------ types
     def ty_range(self, tix):
@@ -236,6 +237,185 @@ class Analyzer:
         if ty["k"] in ("ref", "ptr"):
             return ("ref", root, steps + ("*",)), tix
         return TOP, tix
+
+    MAG_LIMIT = 65536
+    # magnitude sources (set by the C03 rule): field names, enum variant names, callee patterns
+    mag_fields = frozenset()
+    mag_variants = frozenset()
+    mag_calls = None
+    mag_prop = None
+
+    def term_inherent_taint(self, t):
+        for s_ in t[2]:
+            if s_ in self.mag_fields:
+                return True
+            if isinstance(s_, tuple) and s_[0] == "dc" and s_[1] in self.mag_variants:
+                return True
+        return False
+
+    def term_tainted(self, st, t):
+        if t is None:
+            return False
+        if self.term_inherent_taint(t):
+            return True
+        if not st.taint:
+            return False
+        if t in st.taint:
+            return True
+        # a tainted container / reference local taints what is read through it
+        steps = t[2]
+        for n in range(len(steps)):
+            if ("v", t[1], steps[:n]) in st.taint:
+                return True
+        return False
+
+    def mag_tainted(self, st, v):
+        """may the value derive from a magnitude source that has not been bounded since?"""
+        if v is None:
+            return False
+        k = v[0]
+        if k == "pending":
+            return self.mag_tainted(st, v[1])
+        if k in ("sum", "diff"):
+            return self.mag_tainted(st, v[1]) or self.mag_tainted(st, v[2]) or self.mag_tainted(st, v[3])
+        if k in ("rem", "quot"):
+            return self.mag_tainted(st, v[1])
+        if k == "nw":
+            return self.term_tainted(st, v[1])
+        if k == "n":
+            if v[1] is None:
+                return False
+            w = st.norm(v)
+            if w[0] == "n" and w[1] is not None and self.term_tainted(st, w[1]):
+                return True
+            return self.term_tainted(st, v[1])
+        if k == "ref" and v[1] is not None and not isinstance(v[1], str):
+            t = ("v", v[1], v[2])
+            if self.term_tainted(st, t):
+                return True
+            pl = (v[1], v[2])
+            from .absdom import under as _under, term_place as _tp
+            return any(_under(_tp(x), pl) for x in st.taint)
+        if k == "opt" and len(v) > 2:
+            return any(self.mag_tainted(st, x) for x in v[2:] if isinstance(x, tuple) and x and x[0] in ("n", "nw", "ref", "sum", "diff"))
+        return False
+
+    def rv_tainted(self, st, rv, v):
+        k = rv["k"]
+        if k == "bin" and rv.get("op") in ("Eq", "Ne", "Lt", "Le", "Gt", "Ge"):
+            return False
+        if self.mag_tainted(st, v):
+            return True
+        for key in ("a", "b"):
+            o = rv.get(key)
+            if isinstance(o, dict) and ("copy" in o or "move" in o):
+                ov, _ = self.eval_op_raw(st, o)
+                if self.mag_tainted(st, ov):
+                    return True
+                cn = self.canon(st, o.get("copy") or o.get("move"))
+                if cn is not None and self.term_tainted(st, ("v", cn[0], cn[1])):
+                    return True
+        if k in ("ref", "rawptr") and isinstance(rv.get("p"), dict):
+            c = self.canon(st, rv["p"])
+            if c is not None and self.term_tainted(st, ("v", c[0], c[1])):
+                return True
+        if k == "agg":
+            for o in rv.get("ops", []):
+                if isinstance(o, dict) and ("copy" in o or "move" in o):
+                    ov, _ = self.eval_op_raw(st, o)
+                    if self.mag_tainted(st, ov):
+                        return True
+        return False
+
+    def taint_place(self, st, pj):
+        c = self.canon(st, pj)
+        if c is None:
+            return
+        t = ("v", c[0], c[1])
+        if not self.mag_bounded(st, ("n", t, 0), deep=False):
+            st.taint = st.taint | {t}
+
+    def sanitise(self, st):
+        """drop the taint of terms that are bounded now (after a guard)"""
+        if st.taint:
+            st.taint = frozenset(t for t in st.taint if not self.mag_bounded(st, ("n", t, 0), deep=False))
+
+    @staticmethod
+    def mag_bterm(t):
+        """terms whose magnitude is bounded by the screen / the input length: container lengths and dimension fields"""
+        if t is None:
+            return False
+        if t[0] == "len":
+            return True
+        steps = t[2]
+        return len(steps) >= 2 and steps[-1] in ("width", "height") and steps[-2] == "size"
+
+    def mag_bounded(self, st, v, deep=True):
+        """is the value bounded by a constant <= 2^16 or by (a container length / a dimension field) + such a constant?"""
+        if v is None:
+            return False
+        if v[0] == "pending":
+            v = v[1]
+        if v[0] in ("sum", "diff", "rem", "quot"):
+            v = v[1]
+        if v[0] == "nw":
+            v = self.reduce_nw(st, v)
+        if v[0] == "b":
+            return True
+        if v[0] not in ("n", "iv"):
+            return False
+        i = st.val_iv(v)
+        if i[1] is not None and i[1] <= self.MAG_LIMIT:
+            return True
+        if v[0] == "n" and v[1] is not None:
+            v = st.norm(v) if hasattr(st, "norm") else v
+            if v[0] != "n" or v[1] is None:
+                i = st.val_iv(v)
+                return i[1] is not None and i[1] <= self.MAG_LIMIT
+            if self.mag_bterm(v[1]) and v[2] <= self.MAG_LIMIT:
+                return True
+            if not deep:
+                for (x, y), d in st.rel.items():
+                    if x == v[1] and self.mag_bterm(y) and d + v[2] <= self.MAG_LIMIT:
+                        return True
+                return False
+            bts = {y for (_, y) in st.rel if self.mag_bterm(y)}
+            for y in bts:
+                d = st.bound_diff(v[1], y, depth=4)
+                if d is not None and d + v[2] <= self.MAG_LIMIT:
+                    return True
+        return False
+
+    def mag_sink(self, st, bi, t, v, what, desc=None, tainted=None):
+        """obligation: the value driving a loop count / allocation / dimension is magnitude-bounded"""
+        if not self.mag or not self.collect:
+            return
+        ok = self.mag_bounded(st, v)
+        lift = None
+        if not ok and v is not None:
+            w = v
+            if w[0] == "pending":
+                w = w[1]
+            if w[0] in ("sum", "diff", "rem", "quot"):
+                w = w[1]
+            if w[0] == "nw":
+                w = ("n", w[1], w[2] + w[3])
+            cands = []
+            if w[0] == "n" and w[1] is not None:
+                w = st.norm(w)
+                if w[0] == "n" and w[1] is not None:
+                    if self.liftable_term(w[1], st.dirty):
+                        cands.append(w)
+                    else:
+                        # v <= P + d for clean parameter terms P: bounding any of them bounds v
+                        for (x, y), d in st.rel.items():
+                            if x == w[1] and self.liftable_term(y, st.dirty) and isinstance(y[1], int) and 1 <= y[1] <= self.b.argc:
+                                cands.append(("n", y, d + w[2]))
+            if cands:
+                lift = ("mag", cands)
+        self.oblige(bi, "MAG", ok, "B" if ok else None, desc or self.describe(t), t, what, lift)
+        tv = tainted if tainted is not None else self.mag_tainted(st, v)
+        self.res.obls[-1].raw = ("mag", v, (not ok) and bool(tv))
 
     def const_table_range(self, name):
         """(min, max) over a flat constant table of integers, or None"""
@@ -990,10 +1170,15 @@ class Analyzer:
             rv = s["rv"]
             v, vt = self.rvalue(st, rv, s["p"])
             if v is None:
+                if self.mag and self.rv_tainted(st, rv, None):
+                    self.taint_place(st, s["p"])
                 return
             if self.invariants:
                 self.check_inv_store(st, s, v, rv)
+            tsrc = self.mag and self.rv_tainted(st, rv, v)
             self.assign_typed(st, s["p"], v, rv)
+            if tsrc:
+                self.taint_place(st, s["p"])
         elif k == "setdiscr":
             c = self.canon(st, s["p"])
             if c is not None:
@@ -1398,9 +1583,17 @@ class Analyzer:
             if self.collect:
                 d, _ = self.eval_op(st, t["discr"])
                 self.switch_conds[bi] = d
-            return self.do_switch(st, t)
+            outs = self.do_switch(st, t)
+            if self.mag:
+                for _, s2 in outs:
+                    self.sanitise(s2)
+            return outs
         if k == "assert":
-            return self.do_assert(st, bi, t)
+            outs = self.do_assert(st, bi, t)
+            if self.mag:
+                for _, s2 in outs:
+                    self.sanitise(s2)
+            return outs
         if k == "drop":
             c = self.canon(st, t["p"])
             return [(t["target"], st)]
